@@ -1104,8 +1104,12 @@ def ex_noise(c):
         np.random.seed(seed)
         return np.asarray(proc.noise_gauss(np.array(a0, copy=True), **kw))
     roc, r = guarded(lambda: (real(12345), real(12345), real(54321)))
+    try:        # beyond the property: the caller's signal is not modified by the function-level call
+        in_same = bool(np.array_equal(np.asarray(a, dtype=float), a0))
+    except Exception:
+        in_same = False
     e = dict(c)
-    e.update(outcome=oc, calls=calls, out=vec(o[0]) if oc == "ok" else [], wx_same=bool(o[1]) if oc == "ok" else False,
+    e.update(outcome=oc, calls=calls, out=vec(o[0]) if oc == "ok" else [], wx_same=bool(o[1]) if oc == "ok" else False, in_same=in_same,
              rep_same=bool(roc == "ok" and r[0].tobytes() == r[1].tobytes()), rep_differs=bool(roc == "ok" and r[0].tobytes() != r[2].tobytes()))
     return e
 
